@@ -376,6 +376,12 @@ func c04NoFloat(c *Ctx, barms map[int64]OpArm) {
 	}
 	// the literal: SetString(node.Value), ok tested, error on failure
 	c04Literal(c, rule)
+	// ... and node.Value is the literal's text as written (digits, point, exponent marker with its sign), minus separators
+	if ns := c.numberScanners(); ns.Frag != nil && ns.Num != nil {
+		c12Stripped(c, ns, "C04.literal-text")
+	} else {
+		c.R.Undecided("C04.literal-text", "number scanner", "-", "number / fragment scanner not found")
+	}
 	// Float64() call sites in the module
 	allowed := map[string]bool{}
 	res := c.method("Runner", "Resolve")
@@ -499,6 +505,16 @@ func c04Literal(c *Ctx, rule string) {
 				}
 			}
 		}
+	}
+	// ... on every path: no shortcut (ParseInt, ParseFloat, a cache) produces the literal's value without SetString
+	if arm.Fold != nil && arm.Fold.Fn == set.Parent() && len(set.Parent().Blocks) > 0 {
+		succ := func(in ssa.Instruction) bool {
+			ret, ok := in.(*ssa.Return)
+			return ok && len(ret.Results) == 2 && isNilConst(ret.Results[1]) && !control.Reach[ret.Block()]
+		}
+		isSet := func(in ssa.Instruction) bool { return in == ssa.Instruction(set) }
+		bypass := pathExistsIn(arm.Fold, nil, succ, isSet)
+		c.R.Check(rule, "numeric-literal:every-path", c.P.InstrPos(set), !bypass, "there is a path on which a numeric literal yields a value without passing SetString(<literal text>): a shortcut such as strconv.ParseInt/ParseFloat reads other syntaxes (0x.., 0b.., 0o.., leading-zero octal) and other precisions than the decimal parser")
 	}
 	c.R.Check(rule, "numeric-literal", c.P.InstrPos(set), textOK && fresh && okTested, fmt.Sprintf("a numeric literal must be SetString(<the literal's own text>) into a fresh Context128 number with the failure turned into an error: text=%v fresh=%v failure-checked=%v", textOK, fresh, okTested))
 	_ = constant.MakeBool
